@@ -18,7 +18,9 @@ PROP = dict(
          "incl. 0, C-1, >=C (constructor clamp); tolerance incl. 0, 1, >= gap; epoch incl. zero-Time, Unix, 2020, 2030, far past; instant aimed at "
          "every boundary (cycle start, window start/end, safe start/end, midpoint, inside trailing tolerance) +-1 ns in cycles -3..+3 and "
          "+-10^6 cycles, plus instants beyond the Duration range (Sub saturates). NextWindow/GetWindowInfo/IsInWindow/TimeUntilWindow/"
-         "PreviousWindow of the real package vs the Lean model; non-trivial = instant within the Duration range of the epoch (theorem hypotheses met)",
+         "PreviousWindow of the real package vs the Lean model; plus STATEFUL cases: one WindowCalculator per case (`reset`) queried 6-30 times, "
+         "non-monotonically in time (later, then one or more cycles earlier, exactly +-1/2 cycles from the previous instant, the same instant "
+         "twice, across the epoch) with 1-3 agent ids interleaved - the answers must equal the stateless model whatever was asked before; non-trivial = instant within the Duration range of the epoch (theorem hypotheses met)",
     nontrivial=lambda op, out: out.startswith("ok "),
     trusted_base=[
         "MM/Model/C33.lean models time.Time.Sub (saturating), int64 multiplication wrap and Go's truncating / and % as explicit primitives; "
